@@ -10,7 +10,7 @@ import (
 	"verif/internal/core"
 )
 
-func init() { Registry["C13"] = checkC13 }
+func init() { Registry["C13"] = withErrRules(checkC13, "read", "protocol/binary", "wire") }
 
 // allocSink: uses of a value as an allocation size.
 func allocSink(in ssa.Instruction, op ssa.Value) (string, bool) {
